@@ -77,7 +77,7 @@ PROPS = {
         "level": "proof",
         "verus": [{"unit": U1, "fns": ["lemma_owner_rejects", "lemma_sender_offers_iff_ahead", "sender_decision", "NodeState::check_delta_status",
                                        "NodeState::apply_delta", "ClusterState::apply_delta"]}],
-        "native": [{"test": "verif_c05_owner", "pairs": ["Chitchat::report_heartbeat"]}],
+        "native": [{"test": "verif_c05_owner", "pairs": ["Chitchat::report_heartbeat"]}, N_SVV],
         "kani": [],
         "assumptions": [A_STD, A_KEY, A_SVV, A_TERM, A_TEST_CFG],
         "level_text": "Per-message induction step, proved: a delta that is not ahead of a copy (max version and watermark <= the copy's max version) is Reject (lemma_owner_rejects), and a rejected delta leaves the whole copy untouched (apply_delta / ClusterState::apply_delta Reject clauses); a sender whose copy is not ahead of the digest offers nothing.",
